@@ -59,12 +59,18 @@ pub fn sequence(a: &Value) -> Value {
     let params = Params::new(text.as_deref());
     let mut why = vec![];
     let mut observed = vec![];
+    let mut kinds: Vec<&str> = vec![];
     let r = std::panic::catch_unwind(std::panic::AssertUnwindSafe(|| {
         let mut seq = params.sequence();
         let (mut i, mut failed) = (0usize, false);
         for (j, (kind, ty)) in reads.iter().enumerate() {
             let got = read(&mut seq, kind, ty);
             observed.push(format!("{got:?}"));
+            kinds.push(match &got {
+                Out::Val(_) => "Val",
+                Out::Absent => "Absent",
+                Out::Err(_) => "Err",
+            });
             if let Out::Err(c) = got {
                 if c != -32602 {
                     why.push(format!("read #{j}: error code {c} instead of -32602"));
@@ -104,7 +110,7 @@ pub fn sequence(a: &Value) -> Value {
     if r.is_err() {
         why.push("a read panicked".to_string());
     }
-    json!({"scenario":"c16_sequence","observed":{"reads":observed,"elements":elems.len()},"violation":!why.is_empty(),"why":why.join(" | ")})
+    json!({"scenario":"c16_sequence","observed":{"reads":observed,"kinds":kinds,"elements":elems.len()},"violation":!why.is_empty(),"why":why.join(" | ")})
 }
 
 /// whole-value parsing: parse::<Vec<Value>> / one::<Value> agree with a plain parse; absent params behave as null
